@@ -235,7 +235,7 @@ pub fn run(cfg: &Cfg) {
     let pats = patterns(&cfg.space, &cfg.tier, cfg.seed);
     let txts = texts(&cfg.space, &cfg.tier);
     let limits: Vec<usize> = if cfg.space == "c07" {
-        vec![0, 1, 2, 3, 5, 10, 100, 1_000_000]
+        vec![0, 1, 2, 3, 5, 10, 100, 1_000_000, 1usize << 32, usize::MAX]
     } else {
         vec![1_000_000]
     };
